@@ -923,6 +923,22 @@ class C19(Prop):
                 kind = ("4" if len(sa) == 4 else "6") + ("4" if len(da) == 4 else "6")
                 add("ctor sock %s %s" % (sock(sa, sp), sock(da, dp)),
                     ("sock", kind, sa if len(sa) == 4 else b"", da if len(da) == 4 else b"", sa if len(sa) == 16 else b"", da if len(da) == 16 else b"", sp, dp))
+        # structured socket-path fields
+        for _ in range(n // 10):
+            s, d = G.special_unix(rng), G.special_unix(rng)
+            add("ctor unix %s %s" % (s.hex(), d.hex()), ("unix", s, d))
+        # v1::Header::new keeps text and addresses as given; TypeLengthValue::new / From<(kind, bytes)> keep kind and value
+        for i in range(n // 5):
+            sa, da = G.rand_bytes(rng, 4), G.rand_bytes(rng, 4)
+            sa6, da6 = G.special_v6(rng), G.rand_bytes(rng, 16)
+            sp, dp = rng.getrandbits(16), rng.getrandbits(16)
+            text = rng.choice([b"", b"PROXY UNKNOWN\r\n", b"PROXY TCP4 1.2.3.4 5.6.7.8 1 2\r\n", b"not a header", "h\u00e9".encode()])
+            addr = [("unknown",), ("tcp4", sa, da, sp, dp), ("tcp6", sa6, da6, sp, dp)][i % 3]
+            at = addr[0] if len(addr) == 1 else "%s/%s/%s/%d/%d" % (addr[0], addr[1].hex(), addr[2].hex(), addr[3], addr[4])
+            add("ctor hdr1 %s %s" % (text.hex() or "-", at), ("hdr1", text, at))
+            kind = rng.choice([0, 1, 4, 0x20, 0x30, 255, rng.getrandbits(8)])
+            value = G.rand_bytes(rng, rng.choice([0, 1, 2, 3, 16, 255, 256, 65535, 65536, 70000]))
+            add("ctor tlvnew %d %s" % (kind, G.spec(value)), ("tlvnew", kind, value))
         return ops
 
     def relation(self, ops, impl):
@@ -939,6 +955,13 @@ class C19(Prop):
                       and kv.get(v1n) == v1n + "/" + txt and kv.get("from1") == v1n + "/" + txt and kv.get("from2") == v2n + "/" + txt)
             elif a[0] == "unix":
                 ok = kv.get("src") == a[1].hex() and kv.get("dst") == a[2].hex() and kv.get("from2") == "unix/%s/%s" % (a[1].hex(), a[2].hex())
+            elif a[0] == "hdr1":
+                ok = kv.get("hdr") == (a[1].hex() or "-") and kv.get("addr") == a[2]
+            elif a[0] == "tlvnew":
+                v = a[2]
+                got = kv.get("value", "")
+                ok = (kv.get("kind") == str(a[1]) and (got == v.hex() or (got == "-" and not v)) and kv.get("len") == str(len(v))
+                      and kv.get("empty") == ("1" if not v else "0") and kv.get("same") == "1")
             else:
                 _, kind, sa, da, sa6, da6, sp, dp = a
                 if kind == "44":
